@@ -20,13 +20,13 @@ for d in sorted(glob.glob(os.path.join(V,"seeded/*/meta.json"))):
     if r:
         ok = r["exit"]=="1"
         caught+=ok
-        res=("caught: `%s`" % (r["class"].replace("class=","") or "stage C (Miri)")) if ok else ("missed by quick; " + m["caught_by"] if m.get("caught_by") else "**missed**")
+        res=("caught: `%s`" % (r["class"].replace("class=","") or "stage C (Miri)")) if ok else ("missed by quick; " + m["caught_by"] if m.get("caught_by") else ("silent by design: not a violation under the adopted reading (see meta.json)" if m.get("disputed") else "**missed**"))
         note = " (missed when first run; checks strengthened, see below)" if m.get("first_missed") else ""
         lines.append("| %s | %s | %s | %s | %s%s | %s |" % (m["id"], m["property"], m["needs_to_manifest"].replace("|","\\|"), r["baseline_tests"], res, note, r["seconds"]))
     else:
         lines.append("| %s | %s | %s | ? | not run | |" % (m["id"], m["property"], m["needs_to_manifest"].replace("|","\\|")))
 lines.append("")
-lines.append("%d of %d independently written changes are reported by the owning quick check on the current machinery, each with a replay file that reproduces in a fresh process; the remaining one (a 32-bit call counter) needs 2^32 calls and is reported by the thorough tier." % (caught,n))
+lines.append("%d of %d independently written changes are reported by the owning quick check on the current machinery, each with a replay file that reproduces in a fresh process; of the others one (a 32-bit call counter) needs 2^32 calls and is reported by the thorough tier, and one (C17-g1) is not a violation under the adopted reading of the tolerance." % (caught,n))
 s=put(s,"SEEDED_TABLE","\n".join(lines))
 # ---- mutants
 lines=["","| mutant | breaks | baseline tests | owning quick check | s |","|---|---|---|---|---|"]
